@@ -660,7 +660,9 @@ type c12RefRow struct {
 	touched   bool
 }
 
-func c12IsStatus(k c12RowKey) bool { return k.metric == c12StatusMetric || k.metric == c12StatusMetricNoShard }
+func c12IsStatus(k c12RowKey) bool {
+	return k.metric == c12StatusMetric || k.metric == c12StatusMetricNoShard
+}
 
 func c12Prop(t vpT, c c12Case) (nontrivial bool, classes []string) {
 	a, err := c12GetAgent()
